@@ -1251,15 +1251,15 @@ theorem cmd_agree : (c : Cmd) → cfrag coll c = true → ∀ (ctx : Scope) (st 
     simp only [cfrag] at hf
     rw [execCmd, Spec.Eval.renderCmd]
     have hb := body_agree body hf ctx { st with out := [] } env (hr.of_heap rfl) hok
-    unfold renderBlockOf
+    obtain ⟨fc, _, fh, fo, _⟩ := renderBlockOf_facts (execBody g esc call body) ctx st
     cases hv : Spec.Eval.renderBlock reg hasBundle esc entry scall dsem body env with
     | unspec => simp [Spec.Eval.Out.bind, Agree]
-    | error => rw [hv] at hb; simp only [AgreeB] at hb; simp [Spec.Eval.Out.bind, Agree, hb]
+    | error => rw [hv] at hb; simp only [AgreeB] at hb; simp [Spec.Eval.Out.bind, Agree, fc, hb]
     | val out =>
       rw [hv] at hb
       simp only [AgreeB] at hb
       simp only [Spec.Eval.Out.bind, Agree]
-      exact ⟨hb.1, by simp, hb.2.2.of_heap rfl⟩
+      exact ⟨by rw [fc]; exact hb.1, by rw [fo]; simp, hb.2.2.of_heap fh⟩
   | .ifc _ conds, hf, ctx, st, env, hr, hown, hok => by
     simp only [cfrag] at hf
     rw [execCmd, Spec.Eval.renderCmd]
@@ -1298,37 +1298,28 @@ theorem cmd_agree : (c : Cmd) → cfrag coll c = true → ∀ (ctx : Scope) (st 
     rw [execCmd, Spec.Eval.renderCmd]
     have hb := body_agree body hf ctx { st with out := [] } env (hr.of_heap rfl) hok
     have hgood := (renderBlockOf_good' (execBody_good g esc call hcall body) ctx st).1
-    unfold renderBlockOf at hgood ⊢
+    obtain ⟨fc, _, fh, fo, fb⟩ := renderBlockOf_facts (execBody g esc call body) ctx st
+    generalize renderBlockOf (execBody g esc call body) ctx st = RB at hgood fc fh fo fb ⊢
     cases hv : Spec.Eval.renderBlock reg hasBundle esc entry scall dsem body env with
     | unspec => simp [Spec.Eval.Out.bind, Agree]
-    | error => rw [hv] at hb; simp only [AgreeB] at hb; simp [Spec.Eval.Out.bind, Agree, hb]
+    | error => rw [hv] at hb; simp only [AgreeB] at hb; simp [Spec.Eval.Out.bind, Agree, fc, hb]
     | val out =>
       rw [hv] at hb
       simp only [AgreeB] at hb
       obtain ⟨hcls, hbytes, hrel⟩ := hb
-      simp only [Spec.Eval.Out.bind, hcls]
-      have hctx := hgood.ctx_eq hcls
-      simp only at hctx
-      rw [hctx]
-      have hbuf : bufBytes (walkBlockOf (execBody g esc call body) ctx { st with out := [] }).st.out = out := by
-        simpa [bufBytes] using hbytes
+      have hcls' : RB.1.cls = .ok := by rw [fc]; exact hcls
+      simp only [Spec.Eval.Out.bind, hcls']
+      rw [hgood.ctx_eq hcls']
+      have hbuf : RB.2 = out := by rw [fb]; simpa [bufBytes] using hbytes
       rw [hbuf]
-      have hown2 : Own ctx { (walkBlockOf (execBody g esc call body) ctx { st with out := [] }).st with out := st.out } :=
-        hown.ext hgood.ext
-      have hrel2 : Rel coll g entry ctx { (walkBlockOf (execBody g esc call body) ctx { st with out := [] }).st with out := st.out } env :=
-        hrel.of_heap rfl
-      cases hs : Eval.set ctx { (walkBlockOf (execBody g esc call body) ctx { st with out := [] }).st with out := st.out } name (.str out) with
+      have hown2 : Own ctx RB.1.st := hown.ext hgood.ext
+      have hrel2 : Rel coll g entry ctx RB.1.st env := hrel.of_heap fh
+      cases hs : Eval.set ctx RB.1.st name (.str out) with
       | none => exact absurd hs (set_ne_none hown2)
       | some st2 =>
         simp only [Agree]
         refine ⟨trivial, ?_, Rel.set g entry hrel2 hown2 hs rfl⟩
-        have : st2.out = st.out := by
-          obtain ⟨f, r, c, hctx', _, _⟩ := hown2
-          subst hctx'
-          simp only [Eval.set] at hs
-          cases hh : heapSet (walkBlockOf (execBody g esc call body) (f :: r) { st with out := [] }).st.heap f.ref name (.str out) with
-          | mk h' ro => rw [hh] at hs; simp only [Option.some.injEq] at hs; rw [← hs]
-        simp [this]
+        rw [Refine.set_out hs, fo]; simp
   | .msg _ id _ _ _ body, hf, ctx, st, env, hr, hown, hok => by
     simp only [cfrag] at hf
     rw [execCmd, Spec.Eval.renderCmd]
@@ -1752,26 +1743,24 @@ theorem params_agree : (ps : ParamList) → paramsFrag coll ps = true →
     rw [Spec.Eval.renderParams, execParams]
     have hb := body_agree body hf.1 ctx { st with out := [] } env (hr.of_heap rfl) hok
     have hgood := (renderBlockOf_good' (execBody_good g esc call hcall body) ctx st).1
-    unfold renderBlockOf at hgood ⊢
+    obtain ⟨fc, _, fh, fo, fb⟩ := renderBlockOf_facts (execBody g esc call body) ctx st
+    generalize renderBlockOf (execBody g esc call body) ctx st = RB at hgood fc fh fo fb ⊢
     cases hv : Spec.Eval.renderBlock reg hasBundle esc entry scall dsem body env with
     | unspec => simp [Spec.Eval.Out.bind, AgreeP]
-    | error => rw [hv] at hb; simp only [AgreeB] at hb; simp [Spec.Eval.Out.bind, AgreeP, hb]
+    | error => rw [hv] at hb; simp only [AgreeB] at hb; simp [Spec.Eval.Out.bind, AgreeP, fc, hb]
     | val out =>
       rw [hv] at hb
       simp only [AgreeB] at hb
       obtain ⟨hcls, hbytes, hrel⟩ := hb
-      simp only [Spec.Eval.Out.bind, hcls]
-      have hctx := hgood.ctx_eq hcls
-      simp only at hctx
-      rw [hctx]
-      have hbuf : bufBytes (walkBlockOf (execBody g esc call body) ctx { st with out := [] }).st.out = out := by
-        simpa [bufBytes] using hbytes
+      have hcls' : RB.1.cls = .ok := by rw [fc]; exact hcls
+      simp only [Spec.Eval.Out.bind, hcls']
+      rw [hgood.ctx_eq hcls']
+      have hbuf : RB.2 = out := by rw [fb]; simpa [bufBytes] using hbytes
       rw [hbuf]
-      have e1 : Ext (fun _ => False) st { (walkBlockOf (execBody g esc call body) ctx { st with out := [] }).st with out := st.out } :=
-        hgood.ext
-      generalize hS1 : ({ (walkBlockOf (execBody g esc call body) ctx { st with out := [] }).st with out := st.out } : St) = st1 at *
-      have hout1 : st1.out = st.out := by rw [← hS1]
-      have hr1 : Rel coll g entry ctx st1 env := by rw [← hS1]; exact hrel.of_heap rfl
+      have e1 : Ext (fun _ => False) st RB.1.st := hgood.ext
+      generalize hS1 : RB.1.st = st1 at *
+      have hout1 : st1.out = st.out := fo
+      have hr1 : Rel coll g entry ctx st1 env := hrel.of_heap fh
       have own1 : Own cd st1 := owncd.ext e1
       have hown1 : Own ctx st1 := hown.ext e1
       cases hs : Eval.set cd st1 key (.str out) with
